@@ -106,6 +106,39 @@ pub fn c16(em: &mut Emit, thorough: bool, seed: u64) {
         let r = call_should_gzip(Some(b""));
         em.case("GZIPQ ae=x", show_bool(r), &pred(r == Ok(false), || "empty header".into()), "empty");
     }
+    // what browsers and tools actually send, verbatim, and the same with one more element behind
+    // it (or before it) that changes or ought not to change the answer
+    {
+        let real: [&[&'static str]; 9] = [
+            &["gzip", "deflate"],
+            &["gzip", "deflate", "br"],
+            &["gzip", "deflate", "br", "zstd"],
+            &["gzip", "deflate", "br", "zstd", "dcb", "dcz"],
+            &["br", "gzip"],
+            &["deflate", "gzip"],
+            &["compress", "gzip"],
+            &["identity"],
+            &["gzip"],
+        ];
+        let extras: [(&'static str, Option<&'static str>); 8] = [
+            ("gzip", Some("0")), ("gzip", Some("0.5")), ("gzip", Some("0.001")), ("identity", None),
+            ("identity", Some("0")), ("*", Some("0")), ("*", None), ("x-gzip", None),
+        ];
+        for list in real {
+            let base: Vec<AeElem> = list.iter().map(|c| AeElem { coding: c, weight: None }).collect();
+            for ows in [0u8, 1] {
+                emit_c16(em, &base, ows);
+                for (c, w) in extras {
+                    let mut after = base.clone();
+                    after.push(AeElem { coding: c, weight: w });
+                    emit_c16(em, &after, ows);
+                    let mut before = vec![AeElem { coding: c, weight: w }];
+                    before.extend(base.iter().cloned());
+                    emit_c16(em, &before, ows);
+                }
+            }
+        }
+    }
     let elems = all_elems();
     for ows in 0..3u8 {
         for a in &elems {
@@ -181,7 +214,7 @@ pub fn c16(em: &mut Emit, thorough: bool, seed: u64) {
 // C17
 
 thread_local! {
-    static VECTORED: std::cell::Cell<bool> = const { std::cell::Cell::new(false) };
+    static VECTORED: std::cell::Cell<u8> = const { std::cell::Cell::new(0) };
 }
 
 struct PartsOrReq {
@@ -291,7 +324,15 @@ fn build_and_drain(
                     let _ = w.write(&[]).unwrap();
                 }
                 [1] => w.flush().unwrap(),
-                p if VECTORED.with(|v| v.get()) => {
+                p if VECTORED.with(|v| v.get()) == 2 => {
+                    let mut off = 0;
+                    while off < p.len() {
+                        let n = w.write(&p[off..]).unwrap();
+                        assert!(n > 0 && n <= p.len() - off, "write reported {}", n);
+                        off += n;
+                    }
+                }
+                p if VECTORED.with(|v| v.get()) == 1 => {
                     // two slices per call, until everything has been taken
                     let mut off = 0;
                     while off < p.len() {
@@ -355,6 +396,10 @@ pub fn c17(em: &mut Emit, thorough: bool, seed: u64) {
         aes.push((Some(malformed_ae(&mut rng)), None, false));
     }
     let payload: Vec<u8> = b"hello, hello, hello, streaming world ".repeat(8);
+    let big: Vec<u8> = {
+        let mut x = 0x2545_F491_4F6C_DD1Du64;
+        (0..100_000).map(|_| { x ^= x << 13; x ^= x >> 7; x ^= x << 17; x as u8 }).collect()
+    };
     let methods = ["GET", "HEAD", "POST", "PUT", "X-EXT"];
     let mut case_no = 0usize;
     for (ae, want, history) in &aes {
@@ -395,15 +440,18 @@ pub fn c17(em: &mut Emit, thorough: bool, seed: u64) {
                         r.dress
                     );
                     // what the handler does with the writer: rotate through the patterns
-                    let pattern = (level as usize + mi + as_parts as usize + case_no) % 6;
+                    let pattern = (level as usize + mi + as_parts as usize + case_no) % 7;
                     let (arg, expect): (&[u8], &[u8]) = match pattern {
                         0 => (&[], &[]),
                         1 => (&[0], &[]),
                         2 => (&[1], &[]),
+                        // 100 000 incompressible bytes in single `write` calls, honouring the
+                        // count each call reports (an encoder takes such a write in pieces)
+                        6 if chunk >= 64 => (&big, &big),
                         _ => (&payload, &payload),
                     };
-                    // pattern 5: the payload goes in through `write_vectored`
-                    VECTORED.with(|v| v.set(pattern == 5));
+                    // pattern 5: the payload goes in through `write_vectored`; 6: a `write` loop
+                    VECTORED.with(|v| v.set(match pattern { 5 => 1, 6 => 2, _ => 0 }));
                     let payload: &[u8] = expect;
                     match build_and_drain(&r, &calls, arg) {
                         Err(()) => em.case(&line, "PANIC", "FAIL:panic", "panic"),
